@@ -58,7 +58,7 @@ class Collector:
         cur = self.failures.get(f.sig)
         size = case_size(case)
         if cur is None:
-            self.failures[f.sig] = {'case': case, 'detail': f.detail, 'expected': f.expected,
+            self.failures[f.sig] = {'sig': f.sig, 'case': case, 'detail': f.detail, 'expected': f.expected,
                                     'observed': f.observed, 'count': 1, 'size': size,
                                     'prop': f.prop}
         else:
